@@ -76,13 +76,13 @@ def save(path, text, how):
 
 
 class Watcher:
-    def __init__(self, root, home, yardl, delays="", tag=""):
+    def __init__(self, root, home, yardl, delays="", tag="", pkgdir="main"):
         self.root = root
         self.evlog = os.path.join(root, "events.log")
         self.racelog = os.path.join(root, "race")
         env = common.yardl_env(home, self.evlog, {"VERIF_DELAYS": delays, "GORACE": "halt_on_error=0 log_path=%s" % self.racelog})
         self.out = open(os.path.join(root, "watch.out"), "wb")
-        self.p = subprocess.Popen([yardl, "generate", "--watch"], cwd=os.path.join(root, "main"), env=env, stdout=self.out, stderr=subprocess.STDOUT,
+        self.p = subprocess.Popen([yardl, "generate", "--watch"], cwd=os.path.join(root, pkgdir), env=env, stdout=self.out, stderr=subprocess.STDOUT,
                                   stdin=subprocess.DEVNULL, start_new_session=True)
 
     def events(self):
